@@ -46,11 +46,17 @@ def main():
         rc, out = sh('cargo test --offline 2>&1 | grep "test result" | head -1', cwd=wt)
         meta['suite_with_change'] = out.strip()
         meta['ran'].append('cargo test --offline (with change): ' + out.strip())
-        shutil.copy(os.path.join(seed, 'demo.rs'), os.path.join(wt, 'tests', 'demo.rs'))
-        rc, out = sh('cargo test --offline --test demo 2>&1 | grep "test result" | tail -1', cwd=wt)
-        meta['demo_with_change'] = out.strip()
-        meta['ran'].append('cargo test --offline --test demo (with change): ' + out.strip())
-        os.remove(os.path.join(wt, 'tests', 'demo.rs'))
+        is_sh = os.path.exists(os.path.join(seed, 'demo.sh'))
+        if is_sh:
+            rc, out = sh('bash %s' % os.path.join(seed, 'demo.sh'), cwd=wt)
+            meta['demo_with_change'] = 'demo.sh exit %d%s' % (rc, ' FAILED' if rc != 0 else ' ok.')
+            sh('git clean -fdq -e target', cwd=wt)
+        else:
+            shutil.copy(os.path.join(seed, 'demo.rs'), os.path.join(wt, 'tests', 'demo.rs'))
+            rc, out = sh('cargo test --offline --test demo 2>&1 | grep "test result" | tail -1', cwd=wt)
+            meta['demo_with_change'] = out.strip()
+            os.remove(os.path.join(wt, 'tests', 'demo.rs'))
+        meta['ran'].append('demonstration (with change): ' + meta['demo_with_change'])
         # checks against the changed tree
         env = dict(os.environ, VERIF_REPO=wt)
         res = {}
@@ -68,10 +74,14 @@ def main():
         # demo without the change
         sh('git reset -q --hard HEAD && git clean -fdq', cwd=wt)
         os.makedirs(os.path.join(wt, 'tests'), exist_ok=True)
-        shutil.copy(os.path.join(seed, 'demo.rs'), os.path.join(wt, 'tests', 'demo.rs'))
-        rc, out = sh('cargo test --offline --test demo 2>&1 | grep "test result" | tail -1', cwd=wt)
-        meta['demo_without_change'] = out.strip()
-        meta['ran'].append('cargo test --offline --test demo (without change): ' + out.strip())
+        if is_sh:
+            rc, out = sh('bash %s' % os.path.join(seed, 'demo.sh'), cwd=wt)
+            meta['demo_without_change'] = 'demo.sh exit %d%s' % (rc, ' FAILED' if rc != 0 else ' ok.')
+        else:
+            shutil.copy(os.path.join(seed, 'demo.rs'), os.path.join(wt, 'tests', 'demo.rs'))
+            rc, out = sh('cargo test --offline --test demo 2>&1 | grep "test result" | tail -1', cwd=wt)
+            meta['demo_without_change'] = out.strip()
+        meta['ran'].append('demonstration (without change): ' + meta['demo_without_change'])
         meta['confirmed'] = ('531 passed' in meta['suite_with_change'] and 'FAILED' in meta['demo_with_change']
                              and 'ok.' in meta['demo_without_change'])
     finally:
@@ -86,7 +96,9 @@ def finish(meta, seed, name, wt):
         d = os.path.join(VERIF, 'seeded', name)
         os.makedirs(d, exist_ok=True)
         shutil.copy(os.path.join(seed, 'patch.diff'), os.path.join(d, 'patch.diff'))
-        shutil.copy(os.path.join(seed, 'demo.rs'), os.path.join(d, 'demo.rs'))
+        for fn in ('demo.rs', 'demo.sh'):
+            if os.path.exists(os.path.join(seed, fn)):
+                shutil.copy(os.path.join(seed, fn), os.path.join(d, fn))
         json.dump(meta, open(os.path.join(d, 'meta.json'), 'w'), indent=1)
     print(json.dumps({k: meta.get(k) for k in ('name', 'applies', 'confirmed', 'detected', 'suite_with_change', 'demo_with_change', 'demo_without_change')}))
 
